@@ -235,7 +235,7 @@ def run(tier, seed):
         "running all query functions give the same bytes modulo the timestamp, and the file is properly terminated; states = distinct "
         "(netlist, target, options)")
     found = {}
-    deadline = time.time() + (200 if tier == "quick" else 3000)
+    deadline = time.time() + (900 if tier == "quick" else 6000)
     cs = cases(tier)
     k = seed % 7
     engine_b.run_cases(ID, cs[k:] + cs[:k], cov, found, deadline, level="compose/" + tier)
